@@ -54,6 +54,27 @@ TASKS = [FunctionTask(nth_contract(nm), module_env={"DISTRIBUTION_MAP": DISTRIBU
          for nm in ("normal", "lognormal", "log-normal", "gamma")]
 TASKS += [StructTask("DISTRIBUTION_MAP", map_check)] + LEMMAS
 
+# the same function on curves (mean and std arrays of one length): element by element the same closed forms (numpy broadcasting of the scalar n)
+_mc = z3.Int("n_frequencies")
+
+
+def nth_curve_inputs(name):
+    def mk(ex, st):
+        st.env["n"] = nn
+        st.env["mean"], st.env["std"] = sym_arr1(ex, st, "mean_curve", _mc), sym_arr1(ex, st, "std_curve", _mc)
+        st.env["distribution"] = StrV(name)
+        st.env["_mc"] = _mc
+        return [_mc >= 0]
+    return mk
+
+
+for _nm in ("normal", "lognormal", "log-normal"):
+    _f = "mean[c] + n*std[c]" if _nm == "normal" else "exp(log(mean[c]) + n*std[c])"
+    TASKS.append(FunctionTask(Contract(qual="hvsrpy.statistics._nth_std_factory", params=["n", "distribution", "mean", "std"], make_inputs=nth_curve_inputs(_nm),
+                                       ensures=["len(result) == _mc", f"forall(c, 0, _mc, result[c] == {_f})"], modifies=[]),
+                              module_env={"DISTRIBUTION_MAP": DISTRIBUTION_MAP}, label=f"hvsrpy.statistics._nth_std_factory[{_nm},curves]",
+                              clauses=["+-n standard deviation curve"]))
+
 # ---------------------------------------------------------------------------------------------------------------------
 # _nanmean_weighted / _nanstd_weighted for a NaN-free 1-D sample without explicit weights (what every HvsrTraditional accessor passes once the
 # accepted windows have peaks): the textbook mean / sample standard deviation of g(values), g = identity or log.  Sums over the sample are
@@ -187,6 +208,10 @@ TASKS.append(StructTask("PRE/POST_PROCESS_FUNCTION_MAP", function_maps))
 import contracts.C08 as _C08
 TASKS += [t for t in _C08.TASKS if getattr(t, "label", "").startswith("hvsrpy.hvsr_traditional.HvsrTraditional.update_peaks_bounded")]
 
+# the statistic accessors of HvsrTraditional: which values, selected by which mask, reach which estimator
+import contracts.acc_traditional as _ACC
+TASKS += _ACC.TASKS
+
 META = dict(
     level="other",
     explanation="proved: _nanmean_weighted and _nanstd_weighted for a NaN-free sample without explicit weights = arithmetic / geometric mean and sample standard "
@@ -199,3 +224,93 @@ META = dict(
     trusted_base=["A-REAL", "A-PY", "A-LOGEXP", "numpy nansum/cov (external)", "PyVC engine + z3/cvc5"],
     assumptions=["A-REAL", "A-PY", "A-LOGEXP", "A-NP-SUM", "A-NP-COV", "A-NP-MASK"],
 )
+
+# ---------------------------------------------------------------------------------------------------------------------
+# the same two functions on the rows of accepted windows with axis=0 (what mean_curve / std_curve pass): column by column the same estimators.
+# Column sums are named per column: SC(c) = sum_r g(v[r,c]), SSC(c, m) = sum_r (g(v[r,c]) - m)^2; a column of n ones sums to n.
+NR_, NC_ = z3.Ints("n_rows n_columns")
+VALS2 = z3.Const("values", A2(R)) if False else None
+from pyvc.core import A2 as _A2
+VALS2 = z3.Const("values2", _A2(R))
+SC1, SCL = z3.Function("colsum_values", I, R), z3.Function("colsum_log_values", I, R)
+SSC1, SSCL = z3.Function("colSS_values", I, R, R), z3.Function("colSS_log_values", I, R, R)
+
+
+def _colsum_model(canon):
+    g = (lambda x: x) if canon == "normal" else (lambda x: LOG(x))
+    SC, SSC = (SC1, SSC1) if canon == "normal" else (SCL, SSCL)
+
+    def f(ex, st, args, kw, node):
+        x = args[0]
+        if not isinstance(x, ARef):
+            return x
+        d = ex.arr(st, x)
+        if d.rank != 2 or set(kw) != {"axis"} or not z3.is_int_value(lit(kw["axis"])) or lit(kw["axis"]).as_long() != 0:
+            raise Undecided("column sums: 2-D argument with axis=0 expected")
+        r0, c0 = z3.Ints("r!sum c!sum")
+        elem = z3.simplify(ex.sel2(d, r0, c0))
+        v0 = S2_(VALS2, r0, c0)
+        subs = []
+        for t in (v0, LOG(v0), z3.RealVal(1)):
+            subs += [(t == NAN, z3.BoolVal(False)), (NAN == t, z3.BoolVal(False))]
+        elem = z3.simplify(z3.substitute(elem, *subs))
+        if z3.is_bool(elem):
+            elem = z3.simplify(z3.substitute(elem, (NAN, z3.RealVal("-123456789.25"))))
+        if z3.is_bool(elem):
+            if z3.is_true(elem):
+                return ex.alloc_arr(st, (d.shape[1],), z3.K(I, d.shape[0]), "int", "fresh", tag="colcount")
+            raise Undecided(f"np.sum of a mask that is not constant: {elem}")
+        e = g(v0)
+        if z3.simplify(elem - 1).eq(z3.RealVal(0)):
+            return ex.alloc_arr(st, (d.shape[1],), z3.K(I, z3.ToReal(d.shape[0])), "real", "fresh", tag="colsum1")
+        if z3.simplify(elem - e).eq(z3.RealVal(0)):
+            return ex.alloc_arr(st, (d.shape[1],), ex.lam1(lambda c: SC(c)), "real", "fresh", tag="colsum")
+        m_ = st.env.get("mean")
+        if isinstance(m_, ARef):
+            mc = ex.sel1(ex.arr(st, m_), c0)
+            for cand in ((e - mc) * (e - mc), (e - mc) ** 2):
+                if z3.simplify(elem - cand).eq(z3.RealVal(0)):
+                    dm_ = ex.arr(st, m_)
+                    return ex.alloc_arr(st, (d.shape[1],), ex.lam1(lambda c: SSC(c, ex.sel1(dm_, c))), "real", "fresh", tag="colSS")
+        raise Undecided(f"np.nansum(axis=0) of an expression the abstraction does not name: {elem}")
+    return FuncV(f, "np.nansum")
+
+
+from pyvc.core import S2 as S2_
+
+
+def _stat2_inputs(name):
+    def mk(ex, st):
+        st.env["values"] = ex.alloc_arr(st, (NR_, NC_), VALS2, "real", "param:values", tag="values")
+        st.env["distribution"] = StrV(name)
+        st.env["weights"] = NONE
+        st.env["mean_kwargs"] = st.env["std_kwargs"] = DictV({"axis": z3.IntVal(0)})
+        st.env["denominator"] = StrV("nist")
+        st.env["NR_"], st.env["NC_"] = NR_, NC_
+        r, c = z3.Ints("r!v c!v")
+        return [NR_ >= 2, NC_ >= 1, z3.ForAll([r, c], z3.And(S2_(VALS2, r, c) != NAN, S2_(VALS2, r, c) > 0, LOG(S2_(VALS2, r, c)) != NAN), patterns=[S2_(VALS2, r, c)])]
+    return mk
+
+
+for _name in ("normal", "lognormal", "log-normal"):
+    _canon = {"normal": "normal", "lognormal": "lognormal", "log-normal": "lognormal"}[_name]
+    _SC, _SSC = (SC1, SSC1) if _canon == "normal" else (SCL, SSCL)
+    _np = ModV("np", dict(npm.NP.attrs, nansum=_colsum_model(_canon), sum=_colsum_model(_canon), isnan=FuncV(_isnan_model, "np.isnan")))
+    _env = {"np": _np, "_distribution_factory": _factory_model(_canon), "DISTRIBUTION_MAP": DISTRIBUTION_MAP}
+    _mean_spec = "SC(c) / NR_" if _canon == "normal" else "exp(SC(c) / NR_)"
+    TASKS.append(FunctionTask(Contract(qual="hvsrpy.statistics._nanmean_weighted", params=["distribution", "values", "weights", "mean_kwargs"],
+                                       ghost={"SC": _SC, "exp": EXP}, make_inputs=_stat2_inputs(_name),
+                                       ensures=["len(result) == NC_", f"forall(c, 0, NC_, result[c] == {_mean_spec})"], modifies=[],
+                                       notes="rows of a NaN-free 2-D sample with axis=0: column-wise arithmetic / geometric mean"),
+                              module_env=_env, label=f"hvsrpy.statistics._nanmean_weighted[{_name},axis=0]", clauses=["mean curve estimator"]))
+
+    def _mean2_call(ex, st, args, kw, node, _c=_canon, _S_=_SC):
+        f = (lambda c: _S_(c) / z3.ToReal(NR_)) if _c == "normal" else (lambda c: EXP(_S_(c) / z3.ToReal(NR_)))
+        return ex.alloc_arr(st, (NC_,), ex.lam1(f), "real", "fresh", tag="mean_curve")
+    _lm = "SC(c) / NR_" if _canon == "normal" else "log(exp(SC(c) / NR_))"
+    TASKS.append(FunctionTask(Contract(qual="hvsrpy.statistics._nanstd_weighted", params=["distribution", "values", "weights", "std_kwargs", "denominator"],
+                                       ghost={"SC": _SC, "SSC": _SSC, "exp": EXP, "log": LOG, "sqrt": SQRT}, make_inputs=_stat2_inputs(_name),
+                                       ensures=["len(result) == NC_", f"forall(c, 0, NC_, result[c] == sqrt(SSC(c, {_lm}) / ((1 - 1 / NR_) * NR_)))"], modifies=[],
+                                       notes="column-wise sample standard deviation of g(values) about the column mean, n-1 denominator"),
+                              module_env=dict(_env, _nanmean_weighted=FuncV(_mean2_call, "_nanmean_weighted")),
+                              label=f"hvsrpy.statistics._nanstd_weighted[{_name},axis=0]", clauses=["standard deviation curve estimator"]))
